@@ -794,8 +794,18 @@ static Boolean DecodeAdr(tStrComp const* pArg, tAdrVals* pDest, Boolean AddrMode
 
         memset(&OutEvalResult, 0, sizeof(OutEvalResult));
         StrCompSplitRef(&OutDisp, &InnerArg, pArg, &pArg->str.p_str[SplitPos]);
+        StrCompShorten(&InnerArg, 1);
+        KillPrefBlanksStrCompRef(&InnerArg);
+        KillPostBlanksStrComp(&InnerArg);
         if (OutDisp.Pos.Len) {
-            OutDispVal = EvalStrIntExpressionWithResult(&OutDisp, Int30, &OutEvalResult);
+            /* addr(PC): the outer value is a target address anywhere in the address
+               space (just like the operand of a branch), not a 30-bit displacement: */
+
+            OutDispVal = EvalStrIntExpressionWithResult(
+                    &OutDisp,
+                    as_strcasecmp(InnerArg.str.p_str, "PC") ? Int30
+                                                            : pCurrCPUProps->MemIntType,
+                    &OutEvalResult);
             if (!OutEvalResult.OK) {
                 return False;
             }
@@ -804,9 +814,6 @@ static Boolean DecodeAdr(tStrComp const* pArg, tAdrVals* pDest, Boolean AddrMode
             OutDispVal       = 0;
         }
 
-        StrCompShorten(&InnerArg, 1);
-        KillPrefBlanksStrCompRef(&InnerArg);
-        KillPostBlanksStrComp(&InnerArg);
         switch (DecodeReg(&InnerArg, &RegValue, NULL, eSymbolSize32Bit, False)) {
         case eIsReg: /* disp(Rn/FP/SP/SB) */
             pDest->Code = (RegValue < 8) ? AddrCode_Relative + RegValue
